@@ -48,6 +48,9 @@ def gen_solve(draw, tier="quick"):
             c0["cond_err"] = "vector"
             c0["err_val"] = draw(st.lists(logfloat(1e-3, 0.5), min_size=nv, max_size=nv))
         case["cond_val"] = [min(max(float(v), -2.0), 3.0) if v == v else v for v in case["cond_val"]]
+        if c0["geo"] == "euclid" and not case["spec"].get("latlon"):
+            # unit of length: coordinates and correlation length of order 10^e
+            case["len_unit_exp"] = draw(st.sampled_from([0, 0, -9, -12, 7]))
     else:
         case = draw(kc.configs(tier, max_cond=12 if tier == "quick" else 40))
     fdim = kc.field_dim(case["spec"])
@@ -140,6 +143,14 @@ def check_solve(case, rec):
         rec.label("repeated_measurement_at_one_location")
     cond_pos = np.array(case["cond_pos"], dtype=float).reshape(fdim, -1)
     pos = np.array(case["pos"], dtype=float).reshape(fdim, -1)
+    if case.get("len_unit_exp"):
+        lu = 10.0 ** case["len_unit_exp"]
+        cond_pos, pos = cond_pos * lu, pos * lu
+        spec = dict(spec, len_scale=float(spec["len_scale"] * lu))
+        if spec["opt"].get("len_low"):
+            spec["opt"] = dict(spec["opt"], len_low=float(spec["opt"]["len_low"] * lu))
+        case = dict(case, spec=spec, cond_pos=cond_pos.tolist(), pos=pos.tolist())
+        rec.label(f"len_unit_1e{case['len_unit_exp']}", f"len_unit_1e{case['len_unit_exp']}_exact_{cfg['exact']}")
     if case.get("far"):
         fr = case["far"]
         ls_ = max(1.0, float(spec["len_scale"]))
